@@ -1,1 +1,18 @@
-fn main() { let _ = vcommon::Ctx::from_args(); }
+mod c12;
+mod c13;
+mod c18;
+mod sw;
+
+fn main() {
+    let ctx = vcommon::Ctx::from_args();
+    ctx.watchdog(ctx.pick(900, 7200));
+    match ctx.prop.as_str() {
+        "C12" => c12::run(&ctx),
+        "C13" => c13::run(&ctx),
+        "C18" => c18::run(&ctx),
+        p => {
+            println!("INCONCLUSIVE vh-store does not serve {p}");
+            std::process::exit(2);
+        }
+    }
+}
